@@ -3,24 +3,24 @@ import MenelausVerif.Model.Lifecycle
 namespace MV.Driver
 open MV MV.Lifecycle
 
-def parseKind? : String → Option Kind
+private def parseKind? : String → Option Kind
   | "adwin" => some .adwin | "burnin" => some .burnin | "ddm" => some .ddm | "eddm" => some .eddm
   | "stepd" => some .stepd | "lfr" => some .lfr | "md3" => some .md3 | "kdqS" => some .kdqS
   | "batch1" => some .batch1 | "hdm" => some .hdm | "pcacd" => some .pcacd | _ => none
 
-def parseOptNat? (t : String) : Option (Option Nat) :=
+private def lcOptNat? (t : String) : Option (Option Nat) :=
   if t = "_" then some Option.none else t.toNat?.map some
 
-def parseRecs? (t : String) : Option Recs :=
+private def parseRecs? (t : String) : Option Recs :=
   match t.splitOn "," with
   | [a, b] => do
-    let a ← parseOptNat? a
-    let b ← parseOptNat? b
+    let a ← lcOptNat? a
+    let b ← lcOptNat? b
     pure (a, b)
   | _ => Option.none
 
 /-- `o <drift> <total> <since> <recs> <err> <refDone>` → `ok` | `viol <clause>` -/
-def lifecycleStep (c : Cfg) (m : Mon) : List String → Option (String × Mon)
+private def lifecycleStep (c : Cfg) (m : Mon) : List String → Option (String × Mon)
   | ["o", d, t, s, r, e, rd] => do
     let d ← Drift.ofStr? d
     let t ← t.toNat?
